@@ -211,6 +211,26 @@ func c12Units(thorough bool) []*explore.Unit {
 		units = append(units, &explore.Unit{Name: p.String(), Bound: b, Opt: vrt.Options{MaxSteps: 60000},
 			Body: batchBody(p, out), Check: c12Check(p, out), Sig: batchSig(out)})
 	}
+	// keys on and next to the region boundary ("m" is the first row of the second region): a
+	// call for the boundary row must not ride along with the calls of the region that ends there
+	for _, layout := range []string{"spread", "coloc"} {
+		for _, keys := range [][]string{{"a", "m"}, {"m", "a"}, {"l\xff", "m", "m\x00"}, {"m\x00", "a", "m"}} {
+			for _, sc := range []string{"", "N", "R"} {
+				p := batchParams{layout: layout, keys: keys, ownCtx: -1}
+				for i := range keys {
+					p.kinds = append(p.kinds, []string{"get", "inc", "put"}[i%3])
+					if i == 0 {
+						p.scripts = append(p.scripts, sc)
+					} else {
+						p.scripts = append(p.scripts, "")
+					}
+				}
+				out := &batchObs{}
+				units = append(units, &explore.Unit{Name: p.String(), Bound: 0, Opt: vrt.Options{MaxSteps: 60000},
+					Body: batchBody(p, out), Check: c12Check(p, out), Sig: batchSig(out)})
+			}
+		}
+	}
 	// cancellation / Close at every scheduling step of the batch (see batchStepUnits)
 	return append(units, batchStepUnits(thorough, c12Check)...)
 }
